@@ -74,12 +74,19 @@ def lin_of(t):
         for a, kk in d2.items():
             d[a] = d.get(a, 0) + sg * kk
         return {a: kk for a, kk in d.items() if kk != 0}, c1 + sg * c2
+    if k == 'cast' and hirq.strip_refs(str(t[2] or '')) in ('usize', 'u64') and lin_is_length(t[1]):
+        return lin_of(t[1])         # a length (0 <= n < 2^64) converted between usize and u64 is the same number
     if k == 'call' and t[1].rsplit('::', 1)[-1] == 'len' and len(t[2]) == 1:
         segs = as_segs(t[2][0], strict=True)
         if segs is not None:
             return segs_len(segs)
         return {('len', t[2][0]): 1}, 0
     return {t: 1}, 0
+
+def lin_is_length(t):
+    """t is a sum of segment lengths and non-negative constants (so it denotes a length, whatever the atoms are)"""
+    d, c = lin_of(t)
+    return c >= 0 and all(k > 0 and a[0] in ('len', 'seglen') for a, k in d.items())
 
 def normal(t):
     d, c = lin_of(t)
@@ -184,6 +191,13 @@ class RopeInterp(absx.Interp):
                     outs.append(Out('val', UNIT, s2))
                 else:
                     outs.append(Out('val', ('call', cal, (('local', b),) + tuple(vals), e.get('id')), s2))
+            elif cal == 'core::mem::take' and len(idx) == 1 and not vals and bs[0] is not None:
+                # mem::take(&mut v): the result is what v held, v is left empty
+                b = bs[0]
+                outs.append(Out('val', ('rope', self.segs_of(s, b)), self.put(s, b, ()).event(('call', cal, (('local', b),), e))))
+            elif cal == 'core::mem::swap' and len(idx) == 2 and not vals and None not in bs and bs[0] != bs[1]:
+                x, y = self.segs_of(s, bs[0]), self.segs_of(s, bs[1])
+                outs.append(Out('val', UNIT, self.put(self.put(s, bs[0], y), bs[1], x).event(('call', cal, (('local', bs[0]), ('local', bs[1])), e))))
             elif name in ('write', 'write_all') and len(idx) == 1 and len(vals) == 1 and bs[0] is not None and 'io::Write' in cal:
                 # <Vec<u8> as io::Write>::write / write_all append the whole slice and cannot fail
                 b = bs[0]
